@@ -33,3 +33,30 @@ def is_settings_table(tname: str) -> bool:
 
 def find(fam, tname, index):
     return tables(family_classes()[fam])[tname][index]
+
+
+# ---------------------------------------------------------------------------------------------
+# the sensor / setting definitions are class-level objects that some types mutate when they decode a value
+# (eco-mode / schedule groups).  Checks whose cases must not depend on each other restore the import-time state.
+# ---------------------------------------------------------------------------------------------
+_PRISTINE = None
+
+
+def snapshot_definitions():
+    """Remember the attribute dict of every definition object (called right after importing the library)."""
+    global _PRISTINE
+    import copy
+    from goodwe.sensor import EcoMode
+    # only the group types decode into themselves; restoring all ~500 definitions per case would dominate run time
+    _PRISTINE = [(s, copy.copy(vars(s))) for (_f, _t, _i, s) in all_sensors() if isinstance(s, EcoMode)]
+
+
+def restore_definitions():
+    if _PRISTINE is None:
+        snapshot_definitions()
+        return
+    for obj, attrs in _PRISTINE:
+        d = vars(obj)
+        if d != attrs:
+            d.clear()
+            d.update(attrs)
